@@ -24,8 +24,9 @@ def setRB (sd : Side) (id : Nat) (sb : RB.SB) : Side :=
   else { sd with rbs := (id, sb) :: sd.rbs }
 
 /-- `closeSession` + `closeAll` (passiveClose), or + notice + `closeAll` (Close) -/
-def sessClose (sd : Side) (active : Bool) : Side × Res :=
-  let (sd, r) := ev sd .cas
+def sessClose (sd : Side) (active : Bool) (timer : Bool := false) : Side × Res :=
+  -- the CAS on `closed`: the timer goroutine's own one is a distinct (ghost-instrumented) event
+  let (sd, r) := ev sd (if timer then .tmoCas else .cas)
   if r != .ok then (sd, .repeat_)
   else
     let (sd, _) := ev sd .sweep
@@ -86,9 +87,11 @@ def recv (sd : Side) (sid seq closing : Nat) (pl : Bytes) (now inact : Nat) : Si
       match entOf sd sid with
       | some _ => (sd, false)
       | none =>
-        let (sd, _) := ev sd (.recvNew sid)
-        let (sd, _) := ev sd .recvIncr
-        (setRB sd sid (RB.init 0), true)
+        let (sd, r) := ev sd (.recvNew sid)
+        if r == Res.ok then
+          let (sd, _) := ev sd .recvIncr
+          (setRB sd sid (RB.init 0), true)
+        else (sd, false)   -- refused: the accept backlog is full; the id is now a tombstone
     match entOf sd sid with
     | some .tomb => (sd, "dropped")
     | none => (sd, "bad")
@@ -110,7 +113,7 @@ def fireTimers (sd : Side) (now : Nat) : Side :=
   let sd := { sd with timers := sd.timers.filter (fun t => ¬ t ≤ now) }
   due.foldl (fun sd _ =>
     let (sd, r) := ev sd .checkTimeout
-    if r == .ok then (sessClose sd true).1 else sd) sd
+    if r == .ok then (sessClose sd true true).1 else sd) sd
 
 def showEnts (sd : Side) (e : Ent) : String :=
   let ids := (sd.sm.tbl.filter (·.2 == e)).map (·.1)
